@@ -23,7 +23,7 @@ ASSUMPTIONS = [
     "scipy's LinearOperator composition rules are trusted for the non-projector nodes; the dense expression is the reference",
     "comparison to 1e-10 x size of terms",
 ]
-BUDGET = {"quick": dict(cases=12000, seconds=60), "thorough": dict(cases=200000, seconds=420)}
+BUDGET = {"quick": dict(cases=12000, seconds=300), "thorough": dict(cases=200000, seconds=420)}
 CASE_TIMEOUT = 60
 MONITORS = {"product": False, "solvers": False}
 MONITOR_VERDICTS = ()
